@@ -15,6 +15,9 @@ SCALARS = [
     {"type": "number", "exclusiveMinimum": 0},
     {"enum": ["x", "y", "z"]},
     {"type": "string", "minLength": 1},
+    {"type": "integer", "minimum": 1759363200},
+    {"type": "number", "minimum": 1234567, "maximum": 1234570},
+    {"type": "integer", "maximum": -20000001},
 ]
 
 BODIES = [
